@@ -13,6 +13,7 @@ def run(tier, seed):
     scripts = []
     for sd in (("svc",) if quick else ("two", "svc", "rich")):
         scripts += tc.generate(rep, "Gen_FimTopology seed=" + sd, tc.consts(3 if quick else 4, sd, "full"), workers=8 if quick else 1)
+    scripts += tc.generate(rep, "Gen_FimTopology seed=twin", tc.consts(2 if quick else 3, "twin", "full"), workers=8 if quick else 1)
     tc.run_and_validate(rep, scripts, "tlc-generated building/removal behaviours from seeded topologies")
     # substrate flavour: explicit ids, node-level services, explicit links, composite builders
     tc.model_check(rep, "MC_FimTopology substrate seed=sub", tc.consts(3 if quick else 4, "sub", "full", "substrate"))
